@@ -341,7 +341,11 @@ def s3_ensure_level(ctx) -> None:
         return
     c = calls[0]
     a = [norm(x) for x in c.args]
-    if a == ["self.get_terms", "self.subterms", "len(self.terms_cache)"]:
+    from .mapplumbing import _is_first_missing_level
+    loops0 = [w for w in walk_local(f) if isinstance(w, ast.While)]
+    apps0 = [x for x in walk_local(f) if isinstance(x, ast.Call) and norm(x.func) == "self.terms_cache.append"]
+    if (len(a) == 3 and a[:2] == ["self.get_terms", "self.subterms"] and len(loops0) == 1 and len(apps0) == 1
+            and _is_first_missing_level(f, loops0[0], c.args[2], "terms_cache", apps0[0])):
         ctx.ok("S3", "level computed = constructor.get_terms(self.get_terms, self.subterms, len(self.terms_cache)): n is exactly the first missing level")
     else:
         ctx.violation("S3", c, f"get_terms is called with ({', '.join(a)}): the size computed must be len(self.terms_cache) (the first missing level), "
